@@ -1191,8 +1191,8 @@ static Value builtin_array_pop(Value *args) {
     DynArray *arr = args[0].as.dyn_array_val;
     
     if (dyn_array_length(arr) == 0) {
-        fprintf(stderr, "Error: array_pop() on empty array\n");
-        return create_void();
+        fprintf(stderr, "Runtime Error: array_pop() on empty array\n");
+        exit(1);  /* Fail fast, like an out-of-range index */
     }
     
     /* Pop element based on type */
